@@ -188,6 +188,12 @@ func runC20(e *emitter, tier string, seed uint64) {
 			// multi-megabyte documents: the comparisons are made here (the line protocol would carry tens of megabytes per
 			// case); the driver gets their outcomes and the ends of the documents
 			ins, ok := insertOracle(c.decoded)
+			if c.enc != "" && c.enc != "gzip" && c.enc != "br" {
+				// an encoding the proxy does not understand: the response passes through byte-identical
+				e.emit(key, "big", hx(c.enc+" (passes through)"), fmt.Sprint(len(c.decoded)), strconv.Itoa(resp.StatusCode), b01(resp.Header.Get("Content-Encoding") == c.enc),
+					b01(resp.Header.Get("Content-Length") == strconv.Itoa(len(body))), "1", b01(string(body) == string(c.wire)), hx("(bytes received)"), hx("(bytes sent by the upstream)"))
+				return
+			}
 			tail := func(x string) string {
 				if len(x) > 300 {
 					return x[len(x)-300:]
